@@ -153,9 +153,9 @@ def check_tree(e, g, rec, origin, r):
     try:
         qsub = {q: sympy.sympify(q.scale_factor) for q in e.atoms(SymQuantity)}
         for node in sympy.preorder_traversal(e):
-            if isinstance(node, sympy.Pow) and node.exp.is_number and node.exp.is_negative:
+            if isinstance(node, sympy.Pow) and (node.exp.is_number and node.exp.is_negative or not node.exp.is_number):
                 bv = node.base.xreplace(qsub)
-                if bv.is_zero:
+                if bv.is_zero:   # 0**negative, 0**f(x): value undefined or not determined
                     rec.add("skipped_undefined_value")
                     return
         if e.xreplace(qsub).has(sympy.zoo, sympy.nan):
@@ -187,6 +187,9 @@ def check_tree(e, g, rec, origin, r):
         rec.violation(f"crash:{type(x).__name__}", f"collect_expression_and_dimension({str(e)[:200]}) raised {type(x).__name__}: {str(x)[:150]}", case)
         return
     except Exception as x:  # pylint: disable=broad-except
+        if type(x).__name__ == "NoConvergence":
+            rec.inconc("SymPy/mpmath evalf failed to converge inside the library's is_number()")
+            return
         rec.violation(f"crash:{type(x).__name__}", f"collect_expression_and_dimension({str(e)[:200]}) raised {type(x).__name__}: {str(x)[:150]}", case)
         return
     nontriv = any(a.args for a in [e]) and any(getattr(a, "dimension", None) is not None for a in sympy.preorder_traversal(e))
